@@ -10,7 +10,8 @@ CFG = dict(
                    "indices/blocks, indices without tables, ...; no well-formedness of the destination is assumed), object sizes and size limits: C07_exact (the "
                    "WriteObjects/Receive loop terminates without rejection and the destination ends with exactly the sent "
                    "commits/tables/blocks, identical under identical ids, indices/profile rebuilt so that every sent table is usable, frame), "
-                   "C07_received_usable (every table object of an accepted sequence is usable at the end whatever the store held before), C07_order, "
+                   "C07_received_usable (every table object of an accepted sequence is usable at the end whatever the store held before), C07_truncated_object_rejected (a packfile cut strictly inside an object is rejected in the state "
+                   "before that object), C07_order, "
                    "C07_parent_gate and C07_table_gate (invariants Closed / TablesWF preserved by every Receive of ARBITRARY "
                    "object sequences, also when it rejects), C07_split_independent (final state independent of the limit), "
                    "C07_shallow_iff/_reject/_silent (exact characterisation when a declared-common commit is not full at the "
@@ -21,14 +22,19 @@ CFG = dict(
                    "packfile framing, table/commit/block byte codecs are C06/C17/C18, the content of block indices / table "
                    "index / profile is C03 - here they are named by the table/block they are derived from and their bytes are "
                    "compared source-vs-destination by the Go oracle (raw store.Get equality, re-indexing, table index = key cells of each "
-                   "block's first row, diff.DiffTables against the original and against itself empty).  Commit author zones and the "
+                   "block's first row, diff.DiffTables against the original and against itself empty).  Byte positions of a truncation inside an object are not in the model (packfiles are object lists: a cut "
+                   "inside object j = the first j objects followed by something undecodable; the reader's error for every byte position is the "
+                   "oracle's clause truncated-object-accepted / truncated-object-stored / done-but-missing).  Commit author zones and the "
                    "column layout / key position of tables are content the model does not interpret (oracle + id comparison only).",
         rule="fixed witnesses (DESIGN probe 2 commits/3 blocks at all 5 limits and at every limit equal to / one byte around each object boundary of its stream, identical tables on several commits, same rows "
              "under two pks, empty and 255-row tables, full/shallow common commits, bad order, source lacking a table/block, "
              "depth-limited tables, destinations pre-populated per object kind (table object alone, +blocks, stale index/profile, single "
              "block indices, indices without table), tables whose key is not the leading column / in another order than the header "
              "(multi-block), a 12-commit chain over author zones incl. -0330 -0930 -0230 -0001 +1245 +1400 -1200 -2359, 37 hostile edits "
-             "incl. the witnesses of fixes 2b449a8 and 427cc6f and pk index == number of columns); exhaustive: every subset of the 7 "
+             "incl. the witnesses of fixes 2b449a8 and 427cc6f and pk index == number of columns); transit damage: the probe at limits 1 / 2500 / 2^40 with each packfile "
+             "truncated before and strictly inside each of its objects (inside the type/length header, right after it, mid-body, one byte "
+             "before the end; quick tier: mid-body and boundary only at limit 1), 1/3 of the plain random transfers repeated with one "
+             "packfile truncated at a random such position; exhaustive: every subset of the 7 "
              "objects of a two-block table at the destination (128; x limit 1 and x stale content in thorough); every DAG on "
              "<=3 commits (<=2 parents) x 3 tables (two sharing their first block) x limits {1,huge} (quick; all 5 in thorough) x "
              "{empty destination, first commit common and full}; random: DAG fragments of 1..12 commits with merges, 1..5 tables "
